@@ -1,9 +1,10 @@
 /* Proof harnesses: Opus DDOS volume extents (opus_cat.h). */
+#include <limits.h>
 #include "dfs_types.h"
 static void mon_read_block(struct DataAccess *obj, unsigned long lba) { (void)obj; (void)lba; }
 static void mon_read_result(struct DataAccess *obj, _Bool ok) { (void)obj; (void)ok; }
 #define LOCS_MAX 8
-struct OpusCatM { unsigned long total_disc_sectors_; size_t locations_n; };      /* locations_ is the harness array h_locs */
+struct OpusCatM { unsigned long total_disc_sectors_; size_t locations_n; unsigned int sectors_per_track_; };      /* locations_ is the harness array h_locs */
 static struct VolumeLocation h_locs[LOCS_MAX + 1];     /* one spare element: the contracts name element g_e + 1 */
 static size_t g_e;                 /* ghost index of one volume */
 #include "VolumeLocation_set_next_sector.inc"
@@ -34,6 +35,80 @@ __CPROVER_ensures((g_exc == EXC_NONE && g_e < self->locations_n) ==>
                   (h_locs[g_e].start_sector_ == __CPROVER_old(h_locs[g_e].start_sector_) &&
                    h_locs[g_e].start_sector_ + h_locs[g_e].len_ == (g_e == self->locations_n - 1 ? self->total_disc_sectors_ : h_locs[g_e + 1].start_sector_) &&
                    h_locs[g_e].start_sector_ + h_locs[g_e].len_ <= self->total_disc_sectors_));
+/* ---- what the constructor takes from sector 16 (C13 "a self-consistent volume table", C17 where each volume starts, C07) ---- */
+#include "sector_count.inc"
+#include "Geometry_total_sectors.inc"
+#include "safe_unsigned_multiply_u.inc"
+#include "VolumeLocation_ctor.inc"
+static void locs_emplace_back(struct OpusCatM *self, int cat, unsigned long start, unsigned long end, char vol)
+{
+  __CPROVER_assert(self->locations_n < LOCS_MAX, "model: at most 8 volumes");
+  if (self->locations_n < LOCS_MAX) { VolumeLocation_ctor(&h_locs[self->locations_n], cat, start, end, vol); self->locations_n = self->locations_n + 1; }
+}
+/* ghost: the number of leading table entries that are present (first zero start track at slot h_P, or 8) */
+static unsigned h_P;
+#define TRK_(k) (sector16->d[8 + 2 * (k)])
+#define OPUS_TABLE_LOOP_CONTRACT \
+  __CPROVER_assigns(i, label, offset, self->locations_n, g_exc, g_exc_by_pointer, __CPROVER_object_whole(h_locs)) \
+  __CPROVER_loop_invariant(0 <= i && i <= 8 && g_exc == EXC_NONE && !g_exc_by_pointer && self->locations_n == ((unsigned)i < h_P ? (unsigned)i : h_P) && offset == 8 + 2 * (unsigned)self->locations_n) \
+  __CPROVER_loop_invariant((g_e < self->locations_n) ==> (h_locs[g_e].start_sector_ == (unsigned long)TRK_(g_e) * sectors_per_track_ && h_locs[g_e].len_ == 0 && \
+                                                         h_locs[g_e].catalog_location_ == 2 * (int)g_e && h_locs[g_e].volume_ == 'A' + (int)g_e && \
+                                                         (geom == 0 || TRK_(g_e) < (unsigned)geom->cylinders))) \
+  __CPROVER_decreases(8 - i)
+#include "opus_ctor_head.inc"
+#include "opus_volume_table.inc"
+
+static sector_count_type sector_count(long int x)
+__CPROVER_requires(0 <= x && x <= (long)UINT_MAX) __CPROVER_assigns()
+__CPROVER_ensures(__CPROVER_return_value == (sector_count_type)x);
+static sector_count_type Geometry_total_sectors(const struct Geometry *self)
+__CPROVER_requires(self->cylinders >= 0 && self->cylinders <= 255 && self->heads >= 0 && self->heads <= 2 && self->sectors <= 255)
+__CPROVER_assigns()
+__CPROVER_ensures(__CPROVER_return_value == (unsigned)self->cylinders * (unsigned)self->heads * self->sectors);
+
+static void VolumeLocation_ctor(struct VolumeLocation *self, int catalog_sector, unsigned long start, unsigned long end, char vol)
+__CPROVER_requires(__CPROVER_is_fresh(self, sizeof(*self)) && end >= start && end <= UINT_MAX)
+__CPROVER_assigns(*self)
+__CPROVER_ensures(self->catalog_location_ == catalog_sector && self->start_sector_ == start && self->len_ == end - start && self->volume_ == vol);
+
+/* sector 16: bytes 1-2 total sectors (big-endian), byte 3 sectors per track; with a geometry at hand both must agree with it */
+static void opus_ctor_head(struct OpusCatM *self, const SectorBuffer *sector16, const struct Geometry *geom)
+__CPROVER_requires(__CPROVER_is_fresh(self, sizeof(*self)) && __CPROVER_is_fresh(sector16, sizeof(*sector16)) && g_exc == EXC_NONE && !g_exc_by_pointer)
+__CPROVER_requires(geom == 0 || (__CPROVER_is_fresh(geom, sizeof(*geom)) && geom->cylinders >= 0 && geom->cylinders <= 255 && geom->heads >= 0 && geom->heads <= 2 && geom->sectors <= 255))
+__CPROVER_assigns(self->total_disc_sectors_, self->sectors_per_track_, g_exc, g_exc_by_pointer)
+__CPROVER_ensures(self->total_disc_sectors_ == (unsigned long)((sector16->d[1] << 8) | sector16->d[2]) && self->sectors_per_track_ == sector16->d[3] && !g_exc_by_pointer)
+__CPROVER_ensures((g_exc == EXC_NONE) == (geom == 0 || (self->total_disc_sectors_ == (unsigned)geom->cylinders * (unsigned)geom->heads * geom->sectors &&
+                                                       self->sectors_per_track_ == geom->sectors)));
+
+/* the volume table: slot k (k = 0..7, volume 'A'+k) is byte 8+2k of sector 16, the volume's first track, 0 = absent.  For the
+   leading present slots (k < h_P) the volume starts at track x sectors-per-track, its catalogue is at sector 2k, and -- with a
+   geometry at hand -- a start track at or beyond the number of cylinders is refused.  What becomes of slots after an absent
+   one is NOT stated (the code stops looking there; the repository does not say whether DDOS allows such tables). */
+static void opus_volume_table(struct OpusCatM *self, const SectorBuffer *sector16, const struct Geometry *geom)
+__CPROVER_requires(__CPROVER_is_fresh(self, sizeof(*self)) && __CPROVER_is_fresh(sector16, sizeof(*sector16)) && g_exc == EXC_NONE && !g_exc_by_pointer)
+__CPROVER_requires(geom == 0 || (__CPROVER_is_fresh(geom, sizeof(*geom)) && geom->cylinders >= 0 && geom->cylinders <= 255))
+__CPROVER_requires(self->locations_n == 0 && self->sectors_per_track_ <= 255 && h_P <= 8)
+/* h_P is what its name says: slots 0..h_P-1 are present, slot h_P (if there is one) is absent */
+#define PRESENT_(k) ((k) < h_P ==> TRK_(k) != 0)
+__CPROVER_requires(PRESENT_(0) && PRESENT_(1) && PRESENT_(2) && PRESENT_(3) && PRESENT_(4) && PRESENT_(5) && PRESENT_(6) && PRESENT_(7) && (h_P < 8 ==> TRK_(h_P) == 0))
+__CPROVER_assigns(self->locations_n, g_exc, g_exc_by_pointer, __CPROVER_object_whole(h_locs))
+__CPROVER_ensures(!g_exc_by_pointer && self->locations_n <= 8)
+__CPROVER_ensures(g_exc == EXC_NONE ==> self->locations_n >= h_P)
+__CPROVER_ensures((g_exc == EXC_NONE && g_e < h_P) ==>
+                  (h_locs[g_e].start_sector_ == (unsigned long)TRK_(g_e) * self->sectors_per_track_ && h_locs[g_e].catalog_location_ == 2 * (int)g_e &&
+                   h_locs[g_e].volume_ == 'A' + (int)g_e && (geom == 0 || TRK_(g_e) < (unsigned)geom->cylinders)))
+/* with a geometry, a present leading slot beyond the last cylinder is refused */
+__CPROVER_ensures((geom != 0 && g_e < h_P && TRK_(g_e) >= (unsigned)geom->cylinders) ==> g_exc != EXC_NONE);
+
+void h_vl_ctor(void) { struct VolumeLocation *v; VolumeLocation_ctor(v, nondet_int(), nondet_ulong(), nondet_ulong(), nondet_char()); }
+void h_ctor_head(void) { struct OpusCatM *c; const SectorBuffer *s; const struct Geometry *g; g_exc = EXC_NONE; g_exc_by_pointer = 0; opus_ctor_head(c, s, g); }
+void h_table(void)
+{
+  struct OpusCatM *c; const SectorBuffer *s; const struct Geometry *g;
+  g_e = nondet_size_t(); __CPROVER_assume(g_e < LOCS_MAX); h_P = nondet_uint();
+  g_exc = EXC_NONE; g_exc_by_pointer = 0;
+  opus_volume_table(c, s, g);
+}
 void h_set_next(void) { struct VolumeLocation *v; VolumeLocation_set_next_sector(v, nondet_ulong()); }
 void h_len(void) { struct VolumeLocation *v; VolumeLocation_len(v); }
 void h_start(void) { struct VolumeLocation *v; VolumeLocation_start_sector(v); }
